@@ -22,7 +22,7 @@ CLAIMED = {
           "5 (C09), 3.3, 3.4"),
   "C10": ("exploration",
           "deterministic simulation: seeded operation histories with injected model failures, differential against a freshly built problem, heap-fill fault injection",
-          "Seeded caller-driven histories (revisits, extreme parameters, failed updates, clones, conversions, whole fits) on hand-written and builder-made models, sequential and parallel flavours under simulated rayon schedules; after every clean update the reported coefficients/residuals/Jacobian must be bitwise equal to those of a freshly built problem at the same parameters, re-queries must be bitwise stable, and every scenario is executed under three heap fill patterns whose observable outputs must be bitwise identical (uninitialised memory would differ). 8-12% of the scenarios add concurrent callers: 2-4 caller threads query the shared problem through &self at the same time under shuttle's seeded scheduler (scheduling points at every model call) and must each see bitwise what a lone caller saw. Rare scenario classes: consecutive updates that differ only in the sign of a zero (with a model family whose value depends on it), 1 000-70 000 consecutive updates on one object ('marathon', half of them beyond 2^16), giant dimensions. Thorough tier: 16 miri seeds. Sampling, not proof.",
+          "Seeded caller-driven histories (revisits, extreme parameters, failed updates, clones, conversions, whole fits) on hand-written and builder-made models, sequential and parallel flavours under simulated rayon schedules; after every clean update the reported coefficients/residuals/Jacobian must be bitwise equal to those of a freshly built problem at the same parameters, re-queries must be bitwise stable, and every scenario is executed under three heap fill patterns whose observable outputs must be bitwise identical (uninitialised memory would differ). 8-12% of the scenarios add concurrent callers: 2-4 caller threads query the shared problem through &self at the same time under shuttle's seeded scheduler (scheduling points at every model call) and must each see bitwise what a lone caller saw. Rare scenario classes: consecutive updates that differ only in the sign of a zero (with a model family whose value depends on it), 1 000-70 000 consecutive updates on one object ('marathon', half of them beyond 2^16), giant dimensions. Miri layers (real code under miri's seeded scheduler, tiny problems): quick tier 6 seeds of mode c10c (three caller threads on one problem, preemption rate 0.4: races inside the library's own arithmetic, below the model-call granularity of the simulated callers); thorough tier 16 seeds each of c10 (every returned element read: uninitialised memory) and c10c. Sampling, not proof.",
           "Trusted: the simulator's model implementations and event log; IEEE determinism of one binary. Heap garbage is modelled by uniform fill patterns.",
           "5 (C10), 3.4, 3.6"),
 }
@@ -35,7 +35,7 @@ CLAIMED.update({
           "5 (C06), 4"),
   "C11": ("exploration",
           "deterministic simulation of the rayon pool: seeded schedules (pool size 1-16, steal/migration, arm order, truly overlapped arms under shuttle's seeded schedulers) decide every join; parallel vs sequential twin and parallel vs parallel under other schedules",
-          "The parallel problem runs on a fork of rayon-core whose join/join_context/current_num_threads consult a seeded executor; rayon's iterator layer and nalgebra's column producers are real. One scenario is executed as the parallel problem under its schedule (optimizer on a tap), as the sequential twin, through LevMarSolver::fit (conversion to the sequential type must preserve state), and under two further schedules/pool sizes; 10-20% of runs overlap the two arms of stolen joins on shuttle threads with scheduling points at every model call. Checked: residuals/coefficients bitwise equal between flavours, Jacobians equal (bitwise probe, tolerance 64u of the column scale as requirement), the optimizer's whole trajectory and result equal while Jacobians are bitwise equal, the same parallel problem bitwise identical under every schedule and pool size, into_sequential and fit preserve state, a failing derivative yields None under every schedule, the real pool is never entered (probe). 6-8% of the scenarios add concurrent callers on the shared parallel problem (2-4 caller threads, several column loops on the one simulated pool, interleaved by shuttle's seeded scheduler): every caller sees what a lone caller saw; with failing model calls in flight, no caller loses its Jacobian to another caller's failure. Thorough tier: 16 miri seeds on the REAL rayon-core pool (2-4 threads, incl. two caller threads) under miri's seeded scheduler. Sampling, not proof.",
+          "The parallel problem runs on a fork of rayon-core whose join/join_context/current_num_threads consult a seeded executor; rayon's iterator layer and nalgebra's column producers are real. One scenario is executed as the parallel problem under its schedule (optimizer on a tap), as the sequential twin, through LevMarSolver::fit (conversion to the sequential type must preserve state), and under two further schedules/pool sizes; 10-20% of runs overlap the two arms of stolen joins on shuttle threads with scheduling points at every model call. Checked: residuals/coefficients bitwise equal between flavours, Jacobians equal (bitwise probe, tolerance 64u of the column scale as requirement), the optimizer's whole trajectory and result equal while Jacobians are bitwise equal, the same parallel problem bitwise identical under every schedule and pool size, into_sequential and fit preserve state, a failing derivative yields None under every schedule, the real pool is never entered (probe). 6-8% of the scenarios add concurrent callers on the shared parallel problem (2-4 caller threads, several column loops on the one simulated pool, interleaved by shuttle's seeded scheduler): every caller sees what a lone caller saw; with failing model calls in flight, no caller loses its Jacobian to another caller's failure. Simulated worker identities (current_thread_index): a stolen arm runs on an idle simulated worker. Miri layers on the REAL rayon-core pool under miri's seeded scheduler (tiny problems): quick tier 6 seeds of mode c11c (2-3 workers for 5 Jacobian columns, preemption rate 0.4); thorough tier 16 seeds of c11 (2-4 threads, two caller threads, a fit) and 24 of c11c. Sampling, not proof.",
           "Trusted: the fork's seam (3 call sites, 1 module); the executor generates only outcomes a real pool can produce. Races inside one column computation are invisible to it; the miri layer of the thorough tier covers them on tiny problems.",
           "5 (C11), 3.5"),
   "C08": ("exploration",
